@@ -76,9 +76,9 @@ var registry = map[string]propCfg{
 	"C14": chainProp("one case = a seeded block stream dominated by transfers (0, 1, small, exact balance, balance+1, 2^256, non-numeric; self transfers; to admins and contract-less accounts; bad signatures; gas price 0/1/50000; 1-4 admins) with single-transaction blocks mixed in; after every block the sum of all balances in the state store must not grow, no balance is negative, and for single-transfer blocks sender/receiver/fee/admin-split accounting is exact", 1000, 100000),
 	"C20": {
 		Engine: "ordersim", Level: "exploration",
-		Quick:       tierCfg{Runs: 320, BudgetS: 150, MinimiseS: 60},
-		Thorough:    tierCfg{Runs: 40000, BudgetS: 2400, MinimiseS: 300},
-		Rule:        "one case = a cluster of real ordering nodes (etcd-raft with 1, 3, 4 or 5 nodes, or solo) with a drawn order.toml (tick, election ticks, batch size and timeout, snapshot count, sync fetch size, timed blocks) inside one testing/synctest bubble; a driver, from a recorded choice tape, delivers/drops/duplicates/reorders messages of the simulated network, advances the fake clock, submits transactions (in order, stale, with gaps) to any node, runs the stub executors (execute, then ReportState possibly out of order), crashes and restarts nodes from a copy of their own storage (WAL, snapshots, applied-index db) at the executed height, isolates and heals nodes, then runs a fault-free tail; or the block syncer alone driven with (begin, end, fetch size) triples against failing peers; the delivery history is checked: heights handed to each incarnation are executed height +1, +2, ...; every height has identical content on all replicas; no transaction in two delivered blocks; executed chains are prefixes of the agreed chain; sync requests form an ascending partition within the fetch size and a failed range is retried unchanged; non-trivial = >=2 heights agreed (or >=2 sync requests); distinct = distinct event-log digests",
+		Quick:       tierCfg{Runs: 3200, BudgetS: 150, MinimiseS: 60},
+		Thorough:    tierCfg{Runs: 400000, BudgetS: 2400, MinimiseS: 300},
+		Rule:        "one case = a cluster of real ordering nodes (etcd-raft with 1, 3, 4 or 5 nodes, or solo) with a drawn order.toml (tick, election ticks, batch size and timeout, snapshot count, sync fetch size, timed blocks) inside one testing/synctest bubble; a driver, from a recorded choice tape, delivers/drops/duplicates/reorders messages of the simulated network, advances the fake clock, submits transactions (in order, stale, with gaps) to any node, runs the stub executors (execute, then ReportState possibly out of order), crashes and restarts nodes from a copy of their own storage (WAL, snapshots, applied-index db) at the executed height, isolates and heals nodes, then runs a fault-free tail; or the block syncer alone driven with (begin, end, fetch size) triples against failing peers; the delivery history is checked: heights handed to each incarnation are executed height +1, +2, ...; every height has identical content on all replicas; no transaction in two delivered blocks; executed chains are prefixes of the agreed chain; sync requests form an ascending partition and a failed range is retried unchanged; non-trivial = >=2 heights agreed (or >=2 sync requests); distinct = distinct event-log digests",
 		Assumptions: []string{"crash = the process stops at an event boundary, every completed write survives (WAL and db directories are copied for the next incarnation)", "the executor is a stub (executed chain + durable height per node); bounded progress after the last fault is measured as a diagnostic only, C20 is a safety property", "goroutine interleaving between two quiescent points is left to the Go scheduler; messages emitted concurrently are sorted canonically before the tape assigns their fates"},
 		Components: map[string]string{
 			"pkg/order/etcdraft (node, storage), etcd raft/wal/snap, goleveldb applied-index db, pkg/order/mempool, tx cache, pkg/order/solo, pkg/order/syncer": "real",
